@@ -153,6 +153,13 @@ FILES = [
     [D + "/rs.json", {"rootless": [["k_v", _i(5)]]}],
 ]
 ROOTLESS_FOR = {"A": "/r0.json", "S": "/rs.json"}
+# dataclasses nested 3 / 4 levels deep (ORACLE-ONLY: nested dataclass fields are outside the Lean model) and root-less files
+FILES += [[D + "/rn3.json", {"raw": {"r": 40, "mid": {"m": 5}}}], [D + "/rn4.json", {"raw": {"t": 9, "root": {"r": 40, "mid": {"m": 5}}}}],
+          [D + "/rnbad.json", {"raw": {"r": 41, "nokey": 1}}]]
+CLASSES["N3"] = {"name": "N3", "nested": 3, "fields": [], "sub": None}
+CLASSES["N4"] = {"name": "N4", "nested": 4, "fields": [], "sub": None}
+DEST["N3"] = "n"
+DEST["N4"] = "n"
 
 
 def spelled(cfg, dest, name, prefix_dest=None):
@@ -237,6 +244,15 @@ def build_class(u: Universe, cs: dict):
     """the REAL dataclass of a class spec; one object per name and history (so two parsers can share it)"""
     if cs["name"] in u.classes:
         return u.classes[cs["name"]]
+    if cs.get("nested"):
+        leaf = dataclasses.make_dataclass("Leaf", [("z", int, dataclasses.field(default=1))])
+        mid = dataclasses.make_dataclass("Mid", [("m", int, dataclasses.field(default=2)), ("leaf", leaf, dataclasses.field(default_factory=leaf))])
+        root = dataclasses.make_dataclass("Root" if cs["nested"] == 4 else cs["name"],
+                                          [("r", int, dataclasses.field(default=3)), ("mid", mid, dataclasses.field(default_factory=mid))])
+        cls = root if cs["nested"] == 3 else dataclasses.make_dataclass(
+            cs["name"], [("t", int, dataclasses.field(default=4)), ("root", root, dataclasses.field(default_factory=root))])
+        u.classes[cs["name"]] = cls
+        return cls
     from simple_parsing import subgroups
     from simple_parsing.helpers import field as sp_field
 
@@ -320,7 +336,9 @@ def write_files(files) -> str:
         if content is None:
             p.unlink(missing_ok=True)
         else:
-            if isinstance(content, dict):
+            if isinstance(content, dict) and "raw" in content:
+                p.write_text(json.dumps(content["raw"]))
+            elif isinstance(content, dict):
                 p.write_text(json.dumps({k: py_value(v) for k, v in content["rootless"]}))
             else:
                 p.write_text(json.dumps({dest: {k: py_value(v) for k, v in kvs} for dest, kvs in content}))
@@ -741,6 +759,25 @@ def union_order_stream():
     return out
 
 
+def nested_rootless_stream():
+    """ORACLE-ONLY (`model: False`): WITHOUT_ROOT parser over a dataclass nested 3 / 4 levels deep, root-less config file
+    through the constructor and through --config_path, 2-3 parses on the same parser, also print_help first"""
+    W = CFGS[5]
+    H = lambda i: {"op": "print_help", "i": i}  # noqa: E731
+    out = []
+    for cname, f in (("N3", D + "/rn3.json"), ("N4", D + "/rn4.json")):
+        for pre in ([], [H(0)]):
+            out.append(hist([mk(0, W, cfg_files=[f]), add(0, cname)] + pre + [parse(0, []), parse(0, []), parse(0, ["--zzz"], known=True)],
+                            note=f"nested-rootless:{cname}:ctor:{len(pre)}"))
+            out.append(hist([mk(0, W, True), add(0, cname)] + pre + [parse(0, ["--config_path", f]), parse(0, ["--config_path", f]), parse(0, [])],
+                            note=f"nested-rootless:{cname}:argv:{len(pre)}"))
+    out.append(hist([mk(0, W, True), add(0, "N3"), parse(0, ["--config_path", D + "/rnbad.json"]), parse(0, ["--config_path", D + "/rnbad.json"])],
+                    note="nested-rootless:N3:unknown-key"))
+    for c in out:
+        c["model"] = False
+    return out
+
+
 def random_history(rng, maxlen, defs):
     n_parsers = rng.choice([1, 2, 2, 3, 3])
     ops, alive = [], {}
@@ -792,7 +829,7 @@ def gen_list(rng, tier):
             if (seen[n] - 1) % strides[n] != offs[n]:
                 continue
         cases.append(word_case(word))
-    cases += union_order_stream()
+    cases += union_order_stream() + nested_rootless_stream()
     defs = [make_definition(rng) for _ in range(12 if tier == "quick" else 70)]
     defs += conflict_definitions() * (1 if tier == "quick" else 2)
     n_rand = 100 if tier == "quick" else 2000
@@ -808,6 +845,8 @@ def gen(rng, tier):
     # unit-level op: the model's `fresh` (right-hand side of the theorems) against the fresh interpreter itself
     keys = set()
     for c in cases:
+        if c.get("model") is False:
+            continue  # oracle-only streams have no model side
         ops = c["case"]["ops"]
         for k, op in enumerate(ops):
             if op["op"] == "parse":
@@ -937,8 +976,9 @@ def model_case(case, obs):
     toks = []
     if case["op"] == "hist.fresh":
         ops = [{"op": "parse", "argv": c["argv"]}] + [{"op": "add", "cls": r["cls"]} for r in c["spec"]["regs"]]
-        return dict(c, floats=_floats(ops))
-    return {"ops": c["ops"], "files": c.get("files") or [], "floats": _floats(c["ops"])}
+        return dict(c, floats=_floats(ops), files=[f for f in (c.get("files") or []) if not (isinstance(f[1], dict) and "raw" in f[1])])
+    files = [f for f in (c.get("files") or []) if not (isinstance(f[1], dict) and "raw" in f[1])]  # raw files: oracle-only stream
+    return {"ops": c["ops"], "files": files, "floats": _floats(c["ops"])}
 
 
 def _floats(ops):
@@ -1103,7 +1143,7 @@ def _file_fields(x):
     for name, content in case_files(x):
         if name in names and content is not None:
             if isinstance(content, dict):
-                out |= {(single, k) for k, _ in content["rootless"]}
+                out |= {(single, k) for k, _ in (content.get("rootless") or [[k, None] for k in content.get("raw", {})])}
             else:
                 out |= {(dest, k) for dest, kvs in content for k, _ in kvs}
     return out
@@ -1169,7 +1209,7 @@ def _rootless_keys(x):
     for j in x["mine"] + [x["k"]]:
         if x["ops"][j]["op"] == "parse":
             names |= {a for a in x["ops"][j]["argv"] if a.endswith(".json")}
-    return {k for name, content in FILES if name in names and isinstance(content, dict) for k, _ in content["rootless"]}
+    return {k for name, content in FILES if name in names and isinstance(content, dict) for k, _ in (content.get("rootless") or [[k, None] for k in content.get("raw", {})])}
 
 
 FINDINGS = {
